@@ -1,8 +1,34 @@
-/- Driver for C04 (stub). -/
-import ControlModel.Basic
+/- Driver for C04 (monitor over Model/Own + Spec.C04 on the observed views). -/
+import Driver.OwnCommon
 
 namespace Driver.C04
+open Own Driver.OwnCommon
 
-def processLine (_line : String) : String := "UNIMPLEMENTED\t0\t-"
+/-- Two creations of the same round that need a common detector (their
+    check-and-insert windows can overlap: hypothesis `overlapFree` of
+    `C04_det_excl_partial` is not guaranteed). -/
+def overlappingNews (sc : Scenario) (ops : List OpIn) : Bool :=
+  let ks := ops.filterMap (fun | .new k => some k | _ => none)
+  ks.any (fun a => ks.any (fun b => decide (a < b) &&
+    match sc.envs[a]?, sc.envs[b]? with
+    | some ea, some eb => (specOf ea).dets.any (fun d => decide (d ∈ (specOf eb).dets))
+    | _, _ => false))
+
+def judge (sc : Scenario) (ctxs : List RoundCtx) : Bool × String :=
+  -- a detector race stays visible in every later snapshot: remember whether a round allowed it
+  let rec go (cs : List RoundCtx) (raced : Bool) : Bool × String :=
+    match cs with
+    | [] => (true, "-")
+    | c :: rest =>
+      let K := envsOfOps c.ops
+      let raced := raced || overlappingNews sc c.ops
+      if specC04Round K c.before c.after then go rest raced
+      else if c.after.crashed then (false, if sc.reuse then "reuse_full_claim_crash" else "-")
+      else if frameOk K c.before c.after && exclusiveTasks c.after && killsUnowned c.before c.after
+              && !exclusiveDets c.after && raced then (false, "create_race")
+      else (false, "-")
+  go ctxs false
+
+def processLine (line : String) : String := processWith judge line
 
 end Driver.C04
